@@ -694,6 +694,26 @@ func c16r3(c *Check) {
 		}
 	}
 	c.Judge(okSplitArg, "persister.parseIniFile takes values as written", c.At(splitAt), "SplitN(line, \"=\", 2) on the trimmed line itself", "the line is edited before it is split into key and value (e.g. a trailing `;…` / `#…` is cut off): a storage-schemas pattern that contains ';' (tag matching) or '#' is silently truncated and matches series it should not")
+	// ... and a rule is passed over only because its pattern does not match: every decision inside the loop
+	// is the outcome of Pattern.MatchString on the loop element
+	skipProblem := ""
+	if len(loops) == 1 {
+		for b := range loops[0].Body {
+			ifi, ok := b.Instrs[len(b.Instrs)-1].(*ssa.If)
+			if !ok || b == loops[0].Header {
+				continue
+			}
+			cnd, _ := negStrip(ifi.Cond)
+			call, isCall := cnd.(*ssa.Call)
+			if isCall && strings.HasSuffix(calleeName(call.Common()), "regexp.Regexp).MatchString") {
+				if _, names := fieldPath(call.Call.Args[0]); len(names) > 0 && names[len(names)-1] == "Pattern" {
+					continue
+				}
+			}
+			skipProblem = "a storage-schemas rule is skipped or chosen on a condition other than its pattern (" + c.At(ifi) + ")"
+		}
+	}
+	c.Judge(skipProblem == "", "persister.WhisperSchemas.Match decides on the pattern only", c.AtFn(m), "the only test inside the loop is Pattern.MatchString(metric)", skipProblem+": a shortcut in front of the regular expression (a literal prefix, a cached verdict) changes which rule is the first to match, e.g. for unanchored patterns")
 	c.Judge(okFirst, "persister.WhisperSchemas.Match returns at the first matching schema", c.AtFn(m), "return inside the range loop over the (sorted) schemas", "Match does not stop at the first matching rule in slice order (e.g. it keeps scanning and returns the last match)")
 	rs := c.P.Func("persister", "", "ReadWhisperSchemas")
 	sorted := false
